@@ -20,6 +20,41 @@ T_MON = {
 }
 
 
+RING_MON = ["M_RingFindKind", "M_RingFindEvents", "M_RingFindBounds"]
+
+
+def ring_part(work, binp, cov, quick, seed, prop):
+    """The event cache as a component: every fill of Ring.tla (all gap patterns, through the wrap-around) on the
+    real Ring, every start revision looked up, judged by TLC (TraceRing.tla)."""
+    import fam_comp
+    traces = []
+    for cap in ((1, 2, 3) if quick else (1, 2, 3, 4)):
+        consts = dict(Cap=cap, MaxAdds=2 * cap + 2, Gaps={1, 2, 3}, GenHist=False)
+        r = fam_comp.mc(work, "Ring.tla", consts, ["FindSound", "WindowIsSuffix"], name="mcring%d" % cap)
+        cov["states"] += r["distinct"]; cov["transitions"] += r["states"]
+        cov["mc_runs"].append(dict(module="Ring.tla", config="capacity %d, %d additions, gaps 1..3" % (cap, 2 * cap + 2), distinct_states=r["distinct"],
+                                   states_generated=r["states"], invariants=["FindSound", "WindowIsSuffix"]))
+        g = tlc(work, "Ring.tla", fam_comp.simple_cfg(dict(consts, GenHist=True), ["Dump"], view=False), workers=1, timeout=1800, name="genring%d" % cap)
+        behs = parse_behaviours(g["outfile"])
+        if not behs:
+            raise Undecided("no ring fills generated")
+        if quick and len(behs) > 3000:
+            behs = random.Random(seed).sample(behs, 3000)
+        rep, trs, _ = fam_comp.run_driver(work, binp, "ringrun", behs, "memkv", 4, name="ringrun%d" % cap)
+        cov["evaluations"] += rep.get("behaviours", 0); cov["distinct_nontrivial"] += rep.get("nontrivial", 0)
+        cov["replay"].append(dict(what="event cache: fills of Ring.tla on the real Ring, every start revision looked up", capacity=cap,
+                                  fills=rep.get("behaviours", 0), fills_that_wrap=rep.get("nontrivial", 0)))
+        log("ringrun capacity %d: %d fills on the real Ring" % (cap, rep.get("behaviours", 0)))
+        traces += trs
+    ntr, v = validate_all(work, traces, RING_MON, module="TraceRing.tla", chunks=8)
+    cov["traces_validated_against_impl"] += ntr
+    cov["monitors_ring"] = RING_MON
+    if v:
+        report_violation(prop, seed, v)
+        return 1
+    return 0
+
+
 def check_watch(prop, tier, seed):
     t0 = time.time()
     work = Work(prop)
@@ -76,6 +111,8 @@ def check_watch(prop, tier, seed):
         if v:
             violations += 1
             report_violation(prop, seed, v)
+        if prop == "C05" and not violations:
+            violations += ring_part(work, binp, cov, quick, seed, prop)
         cov["rule"] = ("behaviours = complete schedules of spec/KubeBrain.tla with writers, sequencer (poll / cache insert / flush), hub and watchers "
                        "(subscribe / cache read / decide / forward / close), generated by TLC simulation and replayed gate by gate; non-trivial = a watcher or "
                        "second writer overlaps a writer's lifetime")
